@@ -92,6 +92,15 @@ def workload(ctx):
             for j in range(0, 7):
                 for ext in ((0x80, 0xA0, 0xE0, 0xE9, 0xFF) if unit[0] in (65, 97) else (0xE9, 97, 33)):
                     ev.append(hl((unit * 12)[:i] + [ext] + (unit * 12)[:j], tag="ext-in-run"))
+    # (8) C40 / Text runs whose last characters mix shifted, extended and basic characters (end-of-data backtracking, unlatch shortcuts)
+    for k in range(1500 if ctx.quick else 40000):
+        base = rng.choice([list(b"abcdefghijklmnopqrstuvwxyz  "), list(b"ABCDEFGHIJKLMNOPQRSTUVWXYZ  ")])
+        n = rng.randint(6, 50)
+        t = [rng.choice(base) for _ in range(n)]
+        for _ in range(rng.randint(1, 4)):
+            t[rng.randrange(max(0, n - 8), n)] = rng.choice([78, 70, 65, 97, 110, 0xA0, 0xE9, 49, 32, 33, 1])
+        shape, mn, mx = rng.choice(HINTS) if k % 5 == 0 else (0, (), ())
+        ev.append(hl(t, shape, mn, mx, tag="c40-eod"))
     # (5) non Latin-1 and empty texts must be refused
     ev.append(hl([0x3042, 65], tag="nonlatin1")); ev.append(hl([65, 0x20AC], tag="nonlatin1")); ev.append(hl([0x100], tag="nonlatin1"))
     return ev
